@@ -34,9 +34,9 @@ Arguments GStr {A}. Arguments GRegexp {A}. Arguments GArr {A}. Arguments GHash {
 
 Definition pv := gpv ty.
 
-(* order keys of -MaxFloat64 and MaxFloat64 (types.VerifFloatKey) *)
-Definition fmax_key : Z := 9218868437227405311.
-Definition fmin_key : Z := -9218868437227405311.
+(* order keys of -Inf and +Inf (types.VerifFloatKey), the bounds of the unbounded Float type (floattype.go:26) *)
+Definition fmax_key : Z := 9218868437227405312.
+Definition fmin_key : Z := -9218868437227405312.
 
 Definition is_unit (t : ty) : bool := match t with TUnit => true | _ => false end.
 Definition is_any (t : ty) : bool := match t with TAny => true | _ => false end.
@@ -260,7 +260,7 @@ Section Create.
 
   (* stringtype.go:90 NewStringType(rng, "") *)
   Definition new_string_sized (lo hi : Z) : ty :=
-    if is_positive lo hi || ((lo =? min_int64) && (hi =? max_int64)) then TString else TStringSz lo hi.
+    if (lo <=? 0) && (hi =? max_int64) then TString else TStringSz lo hi.   (* min <= 0 && max == MaxInt64 (fix: negative minimum) *)
   (* stringtype.go:90 NewStringType(nil, s) *)
   Definition new_string_value (s : str) : ty := match s with [] => TString | _ => TStringVal s end.
 
@@ -589,8 +589,8 @@ Section Wf.
     match t with
     | TInteger lo hi => range_ok lo hi
     | TFloat lo hi => (fmin_key <=? lo) && (lo <=? hi) && (hi <=? fmax_key)
-    | TStringSz lo hi =>     (* NewStringType makes the sizes Integer[0, default] and Integer[default, default] the String type *)
-      range_ok lo hi && negb ((lo =? min_int64) && (hi =? max_int64)) && negb (is_positive lo hi)
+    | TStringSz lo hi =>     (* NewStringType makes every size Integer[min, default] with min <= 0 the String type *)
+      range_ok lo hi && negb ((lo <=? 0) && (hi =? max_int64))
     | TStringVal _ => false
     | TEnum ci vs => if ci then forallb (fun v => str_eqb (to_lower v) v) vs else true
     | TCollection lo hi => range_ok lo hi
